@@ -21,10 +21,19 @@ Reading of the property used here (DESIGN.md §C09):
     `rollback_refused`;
   - clause 2 in full is still FALSE: `error_is_atomic_witness` (RTP mode, unusable bind address:
     `set_remote_description` stores the description and updates the transceivers, then returns the
-    bind error) and `srtp_create_offer_error_after_mid_assignment`; it is proved as
-    `error_is_atomic_partial` under the named hypothesis `EnvOk` (socket binds succeed, or WebRTC mode —
-    corollary `error_is_atomic_webrtc`), and as `error_is_atomic_signaling_checks` for every error the
-    model raises outside the socket layer.
+    bind error). Proved: `create_offer_error_is_atomic` IN FULL (all modes, all environments — round-3
+    fix for SDES-SRTP), `error_is_atomic_partial` under the named hypothesis `EnvOk` (socket binds succeed,
+    or WebRTC mode — corollary `error_is_atomic_webrtc`), `error_is_atomic_signaling_checks` for every
+    error the model raises outside the socket layer. SDES-SRTP `set_remote_description` now starts its
+    direct transport before anything is recorded (example below); it is still covered by `EnvOk` only,
+    because a re-INVITE is applied before the state check in every mode.
+  - "negotiated parameters of every transceiver" in these theorems = what the model record holds: mid,
+    direction, payload map, extension map. Sender / receiver parameters (sender PT, receiver SSRC / RTX /
+    simulcast, sender SSRC / RTX PT / stream id) have NO theorem; they are compared before / after every
+    rejected call on the implementation only (harness oracle).
+  - The theorems are about call SEQUENCES. Since the transition is made after the `.await`s of
+    `set_remote_description`, two OVERLAPPING calls can both pass the state check; concurrency is outside
+    the property and the model (assumption).
 
 Witnesses named `legacy_…` are about code that has since been fixed (`RtcModel.Jsep.Legacy`): they record
 why each `fix:` commit was needed and say nothing about the current tree.
@@ -536,10 +545,19 @@ example : (step pcRtpNoBind (.setRemote offerA)).2 = .err .internal ∧
     (step pcRtpNoBind (.setRemote offerA)).1.sig = pcRtpNoBind.sig ∧
     (step pcRtpNoBind (.setRemote offerA)).1.rem ≠ pcRtpNoBind.rem := by decide
 
-/-- SDES-SRTP mode still assigns the mids before the (gathering wait and) offer socket bind -/
-theorem srtp_create_offer_error_after_mid_assignment :
-    (step pcSrtpNoBind .createOffer).2 = .err .internal ∧
-    (step pcSrtpNoBind .createOffer).1.trxs ≠ pcSrtpNoBind.trxs := by decide
+/-- **create_offer_error_is_atomic** (FULL — every connection state, transport mode and environment): a
+rejected `create_offer` returns the connection exactly as it was. Since the round-2 (RTP) and round-3
+(SDES-SRTP) fixes the direct modes obtain their socket before any mid is assigned. -/
+theorem create_offer_error_is_atomic (pc : Pc) (e : Err) (h : (step pc .createOffer).2 = .err e) :
+    (step pc .createOffer).1 = pc := by
+  simp only [step] at h ⊢
+  rw [createOffer_err_atomic pc e h]
+
+/-- SDES-SRTP, unusable bind address (since the round-3 fixes): `create_offer` and a first
+`set_remote_description` fail before anything is recorded -/
+example : step pcSrtpNoBind .createOffer = (pcSrtpNoBind, .err .internal) ∧
+    step pcSrtpNoBind (.setRemote { offerA with sections := [{ audioSec "0" "0 PCMU/8000" with addr4 := true, addrAny := true }] }) =
+      (pcSrtpNoBind, .err .internal) := by decide
 
 /-- RTP mode (since the round-2 fix): the bind failure is reported before anything is assigned -/
 example : step pcRtpNoBind .createOffer = (pcRtpNoBind, .err .internal) := by decide
